@@ -427,8 +427,14 @@ def oracle(case, obs, messages, flags):
                         t = typed(kind_of_key(Pcd, r[0]), a[2])
                         if t is None or t == 'SKIP':
                             cause = True
+                    # an option GIVEN NOW that the edited option files no longer declare is rejected
+                    # legitimately ("Unknown options" for this command line), whatever is recorded
+                    if resolve_in_files(a[0], decls) is None:
+                        cause = True
                 if not cause:
-                    stale = [k for k, v in dict_update(P['cl'] or [], [[a[0], a[2]] for a in args]) if resolve_in_files(k, decls) is None]
+                    # every argument of this command is valid before and after the reload: only a
+                    # RECORDED option that was removed can be what makes the command fail
+                    stale = [k for k, v in (P['cl'] or []) if resolve_in_files(k, decls) is None]
                     if stale:
                         fail(i, 'a removed option vanishes', 'reconfigure-fails:recorded-option-removed',
                              'setup --reconfigure fails because cmd_line.txt still records %s, whose option was removed from the option file' % ', '.join(stale))
